@@ -16,6 +16,7 @@ func checkC13(c *chk.Ctx) {
 	h := newH(c)
 	c.Decided = []string{
 		"R13a the error result of applying a logged request can only originate from the storage layer / (de)serialisation of stored data: no repository sentinel that classifies request content, no error constructed while applying, no parse of request- or key-derived text",
+		"R13c the step of BecomeLeader that re-arms the sessions from the replayed DB (SessionManager.Initialize) cannot fail because of what a stored key or value looks like: its error only originates from the storage layer",
 		"R13b both apply loops stop at the first apply error (which is why R13a is a necessary condition)",
 	}
 	c.NotDec = []string{
@@ -23,6 +24,7 @@ func checkC13(c *chk.Ctx) {
 		"that the infrastructure errors themselves are independent of the request content (e.g. Pebble's own limits)",
 	}
 	ruleR13a(h)
+	ruleR13c(h)
 	h.Rule("R13b", "K1", "apply loops stop at the first failing entry (shared with R07c)", 4)
 	ruleR07cInto(h, "R13b")
 }
@@ -99,5 +101,58 @@ func ruleR13a(h *H) {
 			}
 		}
 		h.Note("%d error origins of %s, %d infrastructure", len(origins), ir.FuncName(fn), allowed)
+	}
+}
+
+// ruleR13c: BecomeLeader replays the log and then re-arms the sessions found in the DB.
+// The session namespace can hold anything a client managed to write there, so this step
+// must skip what it cannot parse: an error that depends on the content of a stored key or
+// value would make every later election of the shard fail, on every replica.
+func ruleR13c(h *H) {
+	const rule = "R13c"
+	h.Rule(rule, "K4", "origins of the error returned by the SessionManager.Initialize implementation are infrastructure only (no parse of stored keys / values, no constructed or sentinel error)", 1)
+	prov := ir.NewErrProv(h.P)
+	prov.Descend = func(f *ssa.Function) bool {
+		switch ir.RelPkg(ir.PkgPathOf(f)) {
+		case "proto", "server/kv", "server/wal":
+			return false // the storage layer below: its errors are infrastructure by definition here
+		}
+		// reads through the leader controller's own API (ListBlock) are storage accesses too
+		if f.Signature.Recv() != nil {
+			for _, lt := range h.P.Impls("server", "LeaderController") {
+				if ir.TypeIs(f.Signature.Recv().Type(), "server", lt.Obj().Name()) {
+					return false
+				}
+			}
+		}
+		return true
+	}
+	fns := h.P.ImplMethods("server", "SessionManager", "Initialize")
+	if len(fns) == 0 {
+		h.Anchor(rule, "SessionManager.Initialize implementation")
+		return
+	}
+	for _, fn := range fns {
+		h.Fn(ir.FuncName(fn))
+		origins := ir.SortedOrigins(prov.ReturnOrigins(fn))
+		if len(origins) == 0 {
+			h.OK(rule, "error origins of SessionManager.Initialize", h.P.Pos(fn.Pos()), "never fails")
+			continue
+		}
+		for _, o := range origins {
+			name := fmt.Sprintf("error origin %s of SessionManager.Initialize", o.Key())
+			class, why := classifyOrigin(o)
+			if o.Kind == "ext" && (strings.HasPrefix(o.Name, "server.") || strings.HasPrefix(o.Name, "server/kv.") || strings.HasPrefix(o.Name, "github.com/oxia-db/oxia/server/kv.") || strings.HasPrefix(o.Name, "server/wal.")) {
+				class, why = "allowed", "storage layer"
+			}
+			switch class {
+			case "allowed":
+				h.OK(rule, name, h.P.Pos(o.Pos), why+" (enters in "+o.Via+")")
+			case "forbidden":
+				h.Bad(rule, name, h.P.Pos(o.Pos), "re-arming the sessions during BecomeLeader can fail with an error that depends only on stored content: "+why+" (enters in "+o.Via+"). One such key or value in the session namespace makes every later election of the shard fail")
+			default:
+				h.Unknown(rule, name, h.P.Pos(o.Pos), why+" (enters in "+o.Via+")")
+			}
+		}
 	}
 }
